@@ -107,8 +107,16 @@ class DataclassGenerator(AbstractGenerator):
                     importlib.import_module(name)
 
         sys.path.insert(0, str(Path.cwd().absolute()))
-        package = self.config.output.package
-        import_package(self.package_name(package))
+        package = self.package_name(self.config.output.package)
+
+        # Validate the modules that were just written, the interpreter may
+        # still hold modules of an earlier generation into the same package
+        stale = [n for n in sys.modules if n == package or n.startswith(f"{package}.")]
+        for name in stale:
+            del sys.modules[name]
+
+        importlib.invalidate_caches()
+        import_package(package)
 
     def render_package(self, classes: list[Class], module: str) -> str:
         """Render the package for the given classes.
